@@ -25,9 +25,13 @@ import CorsVerif.Proofs.RoundTrip
       `scheme://host` + nothing / `:*` / `:`canonical-decimal(1..65535) with host bytes from the
       documented alphabet, so upper-case or non-ASCII hosts, userinfo, path, query, fragment,
       whitespace and empty / zero / over-range / over-long / leading-zero ports are rejected.
-  Not proved: acceptance of IP-literal and Punycode hosts and the IP-literal defects (zoned,
-  IPv4-mapped, non-canonical): their verdicts come from the netip and idna libraries, modelled as
-  oracles; they rest on the `lex` correspondence suite with the grammar judge.
+    * C13_accept_ipv4: dotted-quad hosts (loopback iff the first field is 127);
+    * C13_accept_idna: any lexical domain that passes the IDNA check of the model — Punycode hosts
+      relative to `profile.ToASCII` (oracle);
+    * C13_accept_ipv6 / C13_reject_ipv6_defects: bracketed IPv6 literals are accepted exactly when
+      `netip.ParseAddr` (oracle) reads them as zone-free, not IPv4-mapped and canonical.
+  What the theorems cannot carry: what `netip` and `idna` themselves accept (oracles; in the tie the
+  real libraries answer for every generated case).
 -/
 namespace Cors
 open Gen Pat
@@ -285,6 +289,132 @@ theorem C13_accept (ext : Ext) (d : DocPattern) (h : d.ok = true) :
     simp
 
 open Spec Accept in
+/-- **C13 (acceptance, any lexical domain that passes the IDNA check).** The general form of
+`C13_accept`: scheme, port and length conditions as documented; labels only required to be non-empty
+letter-digit-hyphen strings with a letter-leading last label; and the host accepted by the IDNA
+check of the model (`idnaOK`: the modelled plain-ASCII rule, or the answer of `profile.ToASCII` —
+the oracle `ext.idnaXn` — when a label starts with `xn--`).  This covers Punycode hosts relative to
+the library. -/
+theorem C13_accept_idna (ext : Ext) (d : DocPattern) (hs : docScheme d.scheme = true) (hL : LexLabels d.labels)
+    (hid : idnaOK ext d.host = true) (hp : docPortOK d.port = true)
+    (hw : (!d.wildcard || decide (d.host.length ≤ 251)) = true) (hdef : d.isDefaultPort = false) :
+    parsePattern ext d.render = .ok
+      { scheme := d.scheme, value := d.hostPattern,
+        kind := if d.wildcard then Kind.subdomains else Kind.domain,
+        port := match d.port with
+          | .absent => 0
+          | .num ds => portValue ds
+          | .any => Facts.origins_wildcardPort } := by
+  simp only [Bool.not_eq_true', Bool.or_eq_true, decide_eq_true_eq] at hw
+  have hid' : idnaOK ext (hostOf d.labels d.trailingDot) = true := hid
+  have hsep : Spec.b "://" = [58, 47, 47] := by decide
+  have hstar : Spec.b "*." = [42, 46] := by decide
+  -- the shape of the rendered string
+  have hrender : d.render = d.scheme ++ (58 :: 47 :: 47 :: ((if d.wildcard then [42, 46] else []) ++ hostOf d.labels d.trailingDot ++ d.portString)) := by
+    unfold DocPattern.render DocPattern.hostPattern DocPattern.host hostOf
+    rw [hsep, hstar]
+    simp
+  have hstops : Stops d.portString := by
+    unfold DocPattern.portString
+    cases d.port with
+    | absent => exact Or.inl rfl
+    | num ds => exact stops_colon ds
+    | any => exact stops_colon [42]
+  -- not `*`, not `null`
+  have h58 : (58 : Nat) ∈ d.render := by rw [hrender]; simp
+  have hns : (d.render == Pat.star || d.render == Pat.null) = false := by
+    simp only [Bool.or_eq_false_iff, beq_eq_false_iff_ne, ne_eq]
+    constructor
+    · intro h0; rw [h0] at h58; revert h58; decide
+    · intro h0; rw [h0] at h58; revert h58; decide
+  unfold parsePattern
+  rw [if_neg (by rw [hns]; simp)]
+  rw [hrender, parseScheme_doc hs _ (by simp only [List.head?_cons, Option.all_some]; decide)]
+  simp only []
+  have hnf : (d.scheme == file) = false := by
+    unfold docScheme at hs
+    cases hsc : d.scheme with
+    | nil => rw [hsc] at hs; simp at hs
+    | cons c t =>
+      rw [hsc] at hs
+      simp only [Bool.and_eq_true, bne_iff_ne, ne_eq] at hs
+      have : Spec.b "file" = file := by decide
+      rw [← this]
+      simpa using hs.2
+  rw [if_neg (by rw [hnf]; simp)]
+  have hcut : Bytes.cutPrefix (58 :: 47 :: 47 :: ((if d.wildcard then [42, 46] else []) ++ hostOf d.labels d.trailingDot ++ d.portString))
+      Facts.origins_schemeHostSep = some ((if d.wildcard then [42, 46] else []) ++ hostOf d.labels d.trailingDot ++ d.portString) := by
+    simp [Facts.origins_schemeHostSep, Bytes.cutPrefix]
+  rw [hcut]
+  simp only []
+  have hwl : d.wildcard = true → (hostOf d.labels d.trailingDot).length ≤ 251 := by
+    intro hwt
+    rcases hw with h0 | h0
+    · rw [hwt] at h0; cases h0
+    · exact h0
+  rw [parseHostPattern_lex ext hL d.trailingDot d.wildcard hid' hwl _ hstops]
+  simp only []
+  have hkind : ((if d.wildcard = true then Kind.subdomains else Kind.domain) == Kind.loopbackIP ||
+      (if d.wildcard = true then Kind.subdomains else Kind.domain) == Kind.nonLoopbackIP) = false := by
+    cases d.wildcard <;> rfl
+  rw [hkind]
+  simp only [Bool.false_and, Bool.false_eq_true, if_false]
+  have hvalue : d.hostPattern = (if d.wildcard then [42, 46] else []) ++ hostOf d.labels d.trailingDot := by
+    unfold DocPattern.hostPattern DocPattern.host hostOf
+    rw [hstar]
+  rw [hvalue]
+  unfold DocPattern.isDefaultPort at hdef
+  unfold DocPattern.portString
+  cases hport : d.port with
+  | absent => simp
+  | any =>
+    simp only [List.isEmpty_cons, Bool.false_eq_true, if_false]
+    have : Bytes.cutPrefix [58, 42] [Facts.origins_hostPortSep] = some [42] := by decide
+    rw [this]
+    simp only []
+    have : parsePortPattern [42] = some (Facts.origins_wildcardPort, []) := by decide
+    rw [this]
+    simp only [List.isEmpty_nil, Bool.not_true, Bool.false_eq_true, if_false]
+    have : isDefaultPortForScheme d.scheme Facts.origins_wildcardPort = false := by
+      simp [isDefaultPortForScheme, Facts.origins_wildcardPort, Facts.origins_portHTTP, Facts.origins_portHTTPS]
+    rw [this]
+    simp
+  | num ds =>
+    rw [hport] at hp hdef
+    simp only [List.isEmpty_cons, Bool.false_eq_true, if_false]
+    have : Bytes.cutPrefix (58 :: ds) [Facts.origins_hostPortSep] = some ds := by
+      simp [Bytes.cutPrefix, Facts.origins_hostPortSep]
+    rw [this]
+    simp only []
+    have hpp : parsePortPattern ds = some (portValue ds, []) := by
+      unfold parsePortPattern
+      have hd0 : ∃ c t, ds = c :: t ∧ c ≠ 42 := by
+        unfold docPortOK at hp
+        cases ds with
+        | nil => simp at hp
+        | cons c t =>
+          refine ⟨c, t, rfl, ?_⟩
+          simp only [Bool.and_eq_true, decide_eq_true_eq] at hp
+          omega
+      obtain ⟨c, t, rfl, hc⟩ := hd0
+      have : Bytes.cutPrefix (c :: t) Facts.origins_portWildcard = none := by
+        simp [Bytes.cutPrefix, Facts.origins_portWildcard, hc]
+      rw [this]
+      exact parsePort_doc _ hp
+    rw [hpp]
+    simp only [List.isEmpty_nil, Bool.not_true, Bool.false_eq_true, if_false]
+    have hndef : isDefaultPortForScheme d.scheme (portValue ds) = false := by
+      have e1 : Spec.b "http" = Facts.origins_schemeHTTP := by decide
+      have e2 : Spec.b "https" = Facts.origins_schemeHTTPS := by decide
+      simp only [e1, e2] at hdef
+      unfold isDefaultPortForScheme
+      simp only [Facts.origins_portHTTP, Facts.origins_portHTTPS]
+      rw [Bool.and_comm (portValue ds == 80), Bool.and_comm (portValue ds == 443)]
+      exact hdef
+    rw [hndef]
+    simp
+
+open Spec Accept in
 /-- **C13 (self-match of documented patterns, at every length maximum).** A documented pattern
 without wildcards, presented verbatim as an Origin, is parsed by the request-side lexer into an
 origin that the pattern denotes — in particular at all maxima at once (64-byte scheme, 253-byte
@@ -341,6 +471,237 @@ theorem C13_accept_self (ext : Ext) (d : DocPattern) (h : d.ok = true) (hw : d.w
   obtain ⟨o, ho, hd⟩ := C13_self ext d.render _ hacc hkind hport hlen
   exact ⟨_, o, hacc, ho, hd⟩
 
+open Spec Accept in
+/-- **C13 (acceptance, dotted-quad IPv4 hosts).** Every pattern `scheme://a.b.c.d[:port]` with a
+documented scheme other than `https`, four fields of 1-3 digits without leading zero and at most
+255, and a documented port (or `:*`) is accepted, as a loopback pattern exactly when the first
+field is `127`. -/
+theorem C13_accept_ipv4 (ext : Ext) (v : DocV4) (h : v.ok = true) :
+    parsePattern ext v.render = .ok
+      { scheme := v.scheme, value := v.host,
+        kind := if v.a == [49, 50, 55] then Kind.loopbackIP else Kind.nonLoopbackIP,
+        port := match v.port with
+          | .absent => 0
+          | .num ds => portValue ds
+          | .any => Facts.origins_wildcardPort } := by
+  simp only [DocV4.ok, Bool.and_eq_true, Bool.not_eq_true', bne_iff_ne, ne_eq] at h
+  obtain ⟨⟨⟨⟨⟨⟨⟨hs, hnh⟩, ha⟩, hb⟩, hc⟩, hd⟩, hp⟩, hdef⟩ := h
+  have hsep : Spec.b "://" = [58, 47, 47] := by decide
+  have hrender : v.render = v.scheme ++ (58 :: 47 :: 47 :: (Bytes.join 46 [v.a, v.b, v.c, v.d] ++ v.portString)) := by
+    unfold DocV4.render DocV4.host
+    rw [hsep]; simp
+  have hstops : Stops v.portString := by
+    unfold DocV4.portString
+    cases v.port with
+    | absent => exact Or.inl rfl
+    | num ds => exact stops_colon ds
+    | any => exact stops_colon [42]
+  have h58 : (58 : Nat) ∈ v.render := by rw [hrender]; simp
+  have hns : (v.render == Pat.star || v.render == Pat.null) = false := by
+    simp only [Bool.or_eq_false_iff, beq_eq_false_iff_ne, ne_eq]
+    constructor
+    · intro h0; rw [h0] at h58; revert h58; decide
+    · intro h0; rw [h0] at h58; revert h58; decide
+  unfold parsePattern
+  rw [if_neg (by rw [hns]; simp)]
+  rw [hrender, parseScheme_doc hs _ (by simp only [List.head?_cons, Option.all_some]; decide)]
+  simp only []
+  have hnf : (v.scheme == file) = false := by
+    unfold docScheme at hs
+    cases hsc : v.scheme with
+    | nil => rw [hsc] at hs; simp at hs
+    | cons c t =>
+      rw [hsc] at hs
+      simp only [Bool.and_eq_true, bne_iff_ne, ne_eq] at hs
+      have : Spec.b "file" = file := by decide
+      rw [← this]
+      simpa using hs.2
+  rw [if_neg (by rw [hnf]; simp)]
+  have hcut : Bytes.cutPrefix (58 :: 47 :: 47 :: (Bytes.join 46 [v.a, v.b, v.c, v.d] ++ v.portString))
+      Facts.origins_schemeHostSep = some (Bytes.join 46 [v.a, v.b, v.c, v.d] ++ v.portString) := by
+    simp [Facts.origins_schemeHostSep, Bytes.cutPrefix]
+  rw [hcut]
+  simp only []
+  rw [parseHostPattern_v4 ext v.a v.b v.c v.d ha hb hc hd _ hstops]
+  simp only []
+  have hhttps : (v.scheme == Facts.origins_schemeHTTPS) = false := by
+    have : Spec.b "https" = Facts.origins_schemeHTTPS := by decide
+    rw [← this]; simpa using hnh
+  rw [hhttps]
+  simp only [Bool.and_false, Bool.false_eq_true, if_false]
+  unfold DocV4.isDefaultPort at hdef
+  unfold DocV4.portString DocV4.host
+  cases hport : v.port with
+  | absent => simp
+  | any =>
+    simp only [List.isEmpty_cons, Bool.false_eq_true, if_false]
+    have : Bytes.cutPrefix [58, 42] [Facts.origins_hostPortSep] = some [42] := by decide
+    rw [this]
+    simp only []
+    have : parsePortPattern [42] = some (Facts.origins_wildcardPort, []) := by decide
+    rw [this]
+    simp only [List.isEmpty_nil, Bool.not_true, Bool.false_eq_true, if_false]
+    have : isDefaultPortForScheme v.scheme Facts.origins_wildcardPort = false := by
+      simp [isDefaultPortForScheme, Facts.origins_wildcardPort, Facts.origins_portHTTP, Facts.origins_portHTTPS]
+    rw [this]
+    simp
+  | num ds =>
+    rw [hport] at hp hdef
+    simp only [List.isEmpty_cons, Bool.false_eq_true, if_false]
+    have : Bytes.cutPrefix (58 :: ds) [Facts.origins_hostPortSep] = some ds := by
+      simp [Bytes.cutPrefix, Facts.origins_hostPortSep]
+    rw [this]
+    simp only []
+    have hpp : parsePortPattern ds = some (portValue ds, []) := by
+      unfold parsePortPattern
+      have hd0 : ∃ c t, ds = c :: t ∧ c ≠ 42 := by
+        unfold docPortOK at hp
+        cases ds with
+        | nil => simp at hp
+        | cons c t =>
+          refine ⟨c, t, rfl, ?_⟩
+          simp only [Bool.and_eq_true, decide_eq_true_eq] at hp
+          omega
+      obtain ⟨c, t, rfl, hc'⟩ := hd0
+      have : Bytes.cutPrefix (c :: t) Facts.origins_portWildcard = none := by
+        simp [Bytes.cutPrefix, Facts.origins_portWildcard, hc']
+      rw [this]
+      exact parsePort_doc _ hp
+    rw [hpp]
+    simp only [List.isEmpty_nil, Bool.not_true, Bool.false_eq_true, if_false]
+    have hndef : isDefaultPortForScheme v.scheme (portValue ds) = false := by
+      have e1 : Spec.b "http" = Facts.origins_schemeHTTP := by decide
+      simp only [e1] at hdef
+      unfold isDefaultPortForScheme
+      simp only [Facts.origins_portHTTP, Facts.origins_portHTTPS, hhttps, Bool.and_false, Bool.or_false]
+      rw [Bool.and_comm]
+      exact hdef
+    rw [hndef]
+    simp
+
+/-- Non-vacuity: a loopback pattern with a port, and the metadata address. -/
+example : ({ scheme := Spec.b "http", a := Spec.b "127", b := Spec.b "0", c := Spec.b "0", d := Spec.b "1",
+             port := .num (Spec.b "8080") } : Spec.DocV4).ok = true := by decide
+example : ({ scheme := Spec.b "http", a := Spec.b "169", b := Spec.b "254", c := Spec.b "169", d := Spec.b "254",
+             port := .any } : Spec.DocV4).render = Spec.b "http://169.254.169.254:*" := by decide
+example : ({ scheme := Spec.b "http", a := Spec.b "256", b := Spec.b "0", c := Spec.b "0", d := Spec.b "1",
+             port := .absent } : Spec.DocV4).ok = false := by decide
+
+open Spec Accept in
+/-- **C13 (acceptance, bracketed IPv6 hosts, relative to the address library).** A pattern
+`scheme://[lit][:port]` with a documented scheme other than `https` and a documented port is
+accepted as soon as `netip.ParseAddr` (the oracle `ext.ip6`) reads `lit` as a zone-free address
+that is not IPv4-mapped and whose canonical text is `lit` itself; it is a loopback pattern exactly
+when the library says the address is a loopback address.  (Nothing else about the literal
+matters: this is the complete list of oracle answers the acceptance depends on.) -/
+theorem C13_accept_ipv6 (ext : Ext) (v : DocV6) (h : v.ok = true) (info : IP6Info)
+    (hmark : firstIPMark v.lit = some 58) (horacle : ext.ip6 v.lit = some info)
+    (hz : info.zone = false) (h46 : info.is4in6 = false) (hcanon : info.canon = v.lit) :
+    parsePattern ext v.render = .ok
+      { scheme := v.scheme, value := v.lit,
+        kind := if info.loopback then Kind.loopbackIP else Kind.nonLoopbackIP,
+        port := match v.port with
+          | .absent => 0
+          | .num ds => portValue ds
+          | .any => Facts.origins_wildcardPort } := by
+  simp only [DocV6.ok, Bool.and_eq_true, Bool.not_eq_true', bne_iff_ne, ne_eq, decide_eq_true_eq] at h
+  obtain ⟨⟨⟨⟨⟨hs, hnh⟩, hlen⟩, hnb⟩, hp⟩, hdef⟩ := h
+  have hnb' : (93 : Nat) ∉ v.lit := by
+    intro hm
+    have := List.contains_iff_mem.mpr hm
+    rw [hnb] at this; cases this
+  have hsep : Spec.b "://[" = [58, 47, 47, 91] := by decide
+  have hrb : Spec.b "]" = [93] := by decide
+  have hrender : v.render = v.scheme ++ (58 :: 47 :: 47 :: (91 :: v.lit ++ 93 :: v.portString)) := by
+    unfold DocV6.render
+    rw [hsep, hrb]; simp
+  have h58 : (58 : Nat) ∈ v.render := by rw [hrender]; simp
+  have hns : (v.render == Pat.star || v.render == Pat.null) = false := by
+    simp only [Bool.or_eq_false_iff, beq_eq_false_iff_ne, ne_eq]
+    constructor
+    · intro h0; rw [h0] at h58; revert h58; decide
+    · intro h0; rw [h0] at h58; revert h58; decide
+  unfold parsePattern
+  rw [if_neg (by rw [hns]; simp)]
+  rw [hrender, parseScheme_doc hs _ (by simp only [List.head?_cons, Option.all_some]; decide)]
+  simp only []
+  have hnf : (v.scheme == file) = false := by
+    unfold docScheme at hs
+    cases hsc : v.scheme with
+    | nil => rw [hsc] at hs; simp at hs
+    | cons c t =>
+      rw [hsc] at hs
+      simp only [Bool.and_eq_true, bne_iff_ne, ne_eq] at hs
+      have : Spec.b "file" = file := by decide
+      rw [← this]
+      simpa using hs.2
+  rw [if_neg (by rw [hnf]; simp)]
+  have hcut : Bytes.cutPrefix (58 :: 47 :: 47 :: (91 :: v.lit ++ 93 :: v.portString))
+      Facts.origins_schemeHostSep = some (91 :: v.lit ++ 93 :: v.portString) := by
+    simp [Facts.origins_schemeHostSep, Bytes.cutPrefix]
+  rw [hcut]
+  simp only []
+  rw [parseHostPattern_v6 ext v.lit info hlen hnb' hmark horacle hz h46 hcanon]
+  simp only []
+  have hhttps : (v.scheme == Facts.origins_schemeHTTPS) = false := by
+    have : Spec.b "https" = Facts.origins_schemeHTTPS := by decide
+    rw [← this]; simpa using hnh
+  rw [hhttps]
+  simp only [Bool.and_false, Bool.false_eq_true, if_false]
+  unfold DocV6.isDefaultPort at hdef
+  unfold DocV6.portString
+  cases hport : v.port with
+  | absent => simp
+  | any =>
+    simp only [List.isEmpty_cons, Bool.false_eq_true, if_false]
+    have : Bytes.cutPrefix [58, 42] [Facts.origins_hostPortSep] = some [42] := by decide
+    rw [this]
+    simp only []
+    have : parsePortPattern [42] = some (Facts.origins_wildcardPort, []) := by decide
+    rw [this]
+    simp only [List.isEmpty_nil, Bool.not_true, Bool.false_eq_true, if_false]
+    have : isDefaultPortForScheme v.scheme Facts.origins_wildcardPort = false := by
+      simp [isDefaultPortForScheme, Facts.origins_wildcardPort, Facts.origins_portHTTP, Facts.origins_portHTTPS]
+    rw [this]
+    simp
+  | num ds =>
+    rw [hport] at hp hdef
+    simp only [List.isEmpty_cons, Bool.false_eq_true, if_false]
+    have : Bytes.cutPrefix (58 :: ds) [Facts.origins_hostPortSep] = some ds := by
+      simp [Bytes.cutPrefix, Facts.origins_hostPortSep]
+    rw [this]
+    simp only []
+    have hpp : parsePortPattern ds = some (portValue ds, []) := by
+      unfold parsePortPattern
+      have hd0 : ∃ c t, ds = c :: t ∧ c ≠ 42 := by
+        unfold docPortOK at hp
+        cases ds with
+        | nil => simp at hp
+        | cons c t =>
+          refine ⟨c, t, rfl, ?_⟩
+          simp only [Bool.and_eq_true, decide_eq_true_eq] at hp
+          omega
+      obtain ⟨c, t, rfl, hc'⟩ := hd0
+      have : Bytes.cutPrefix (c :: t) Facts.origins_portWildcard = none := by
+        simp [Bytes.cutPrefix, Facts.origins_portWildcard, hc']
+      rw [this]
+      exact parsePort_doc _ hp
+    rw [hpp]
+    simp only [List.isEmpty_nil, Bool.not_true, Bool.false_eq_true, if_false]
+    have hndef : isDefaultPortForScheme v.scheme (portValue ds) = false := by
+      have e1 : Spec.b "http" = Facts.origins_schemeHTTP := by decide
+      simp only [e1] at hdef
+      unfold isDefaultPortForScheme
+      simp only [Facts.origins_portHTTP, Facts.origins_portHTTPS, hhttps, Bool.and_false, Bool.or_false]
+      rw [Bool.and_comm]
+      exact hdef
+    rw [hndef]
+    simp
+
+/-- Non-vacuity: `http://[::1]:9090` with the oracle answering as netip does for `::1`. -/
+example : ({ scheme := Spec.b "http", lit := Spec.b "::1", port := .num (Spec.b "9090") } : Spec.DocV6).ok = true := by decide
+example : firstIPMark (Spec.b "::1") = some 58 := by decide
+
 /-! ### Documented non-forms are rejected -/
 
 open RoundTrip in
@@ -370,6 +731,79 @@ theorem C13_accepted_form (ext : Ext) (s : Bytes) (p : Pattern) (h : parsePatter
     apply hnb
     rw [hs1, hs2, hstr]
     simp
+
+/-- An accepted pattern of IP kind went through the IP verdict. -/
+theorem ip_kind_verdict {ext : Ext} {str value rest : Bytes} {kind : Kind}
+    (h : parseHostPattern ext str = .ok (value, kind, rest)) (hk : kind = .loopbackIP ∨ kind = .nonLoopbackIP) :
+    ∃ lb, ipVerdict ext value = .ok lb := by
+  have hns : kind ≠ .subdomains := by rcases hk with rfl | rfl <;> decide
+  obtain ⟨host, hf, hval⟩ := parseHostPattern_nonwild h hns
+  rcases hval with ⟨hip, hv⟩ | ⟨_, _, hkd⟩
+  · unfold parseHostPattern at h
+    simp only [] at h
+    cases hpk : peekKind str with
+    | domain =>
+      simp only [hpk] at h
+      have hho : hostOnly str Kind.domain = str := by simp [hostOnly]
+      rw [hho, hf] at h
+      simp only [show (Kind.domain == Kind.subdomains) = false from rfl, Bool.false_and, Bool.false_eq_true, if_false, hip, if_true] at h
+      cases hvd : ipVerdict ext host.value with
+      | bad => simp [hvd] at h
+      | prohibited => simp [hvd] at h
+      | ok lb => exact ⟨lb, by rw [hv]; exact hvd⟩
+    | subdomains =>
+      exfalso
+      simp only [hpk] at h
+      cases hf2 : Lex.fastParseHost (hostOnly str Kind.subdomains) with
+      | none => simp [hf2] at h
+      | some hr =>
+        obtain ⟨host2, r2⟩ := hr
+        simp only [hf2] at h
+        split at h
+        · cases h
+        · split at h
+          · cases h
+          · rename_i hnip
+            have hip2 : host2.assumeIP = false := by simpa using hnip
+            simp only [hip2, Bool.false_eq_true, if_false] at h
+            split at h
+            · cases h
+            · simp only [Except.ok.injEq, Prod.mk.injEq] at h
+              exact hns h.2.1.symm
+    | nonLoopbackIP => simp [peekKind] at hpk; split at hpk <;> cases hpk
+    | loopbackIP => simp [peekKind] at hpk; split at hpk <;> cases hpk
+  · rcases hk with rfl | rfl <;> cases hkd
+
+/-- **C13 (IP-literal defects, relative to the address library).** Every accepted pattern whose
+host is an IPv6 literal is one that `netip.ParseAddr` reads as a zone-free address that is not
+IPv4-mapped and whose canonical text is the literal itself: zoned, IPv4-mapped and non-canonical
+literals are rejected. -/
+theorem C13_reject_ipv6_defects (ext : Ext) (s : Bytes) (p : Pattern) (h : parsePattern ext s = .ok p)
+    (hk : p.kind = .loopbackIP ∨ p.kind = .nonLoopbackIP) (h6 : firstIPMark p.value = some 58) :
+    ∃ info, ext.ip6 p.value = some info ∧ info.zone = false ∧ info.is4in6 = false ∧ info.canon = p.value := by
+  obtain ⟨rest, _, rest2, _, rest3, hhp, _⟩ := (parsePattern_inv h).scheme
+  obtain ⟨lb, hv⟩ := ip_kind_verdict hhp hk
+  unfold ipVerdict at hv
+  rw [h6] at hv
+  simp only [] at hv
+  cases ho : ext.ip6 p.value with
+  | none => rw [ho] at hv; cases hv
+  | some info =>
+    rw [ho] at hv
+    simp only [] at hv
+    refine ⟨info, rfl, ?_⟩
+    cases hz : info.zone with
+    | true => simp [hz] at hv
+    | false =>
+      simp only [hz, Bool.false_eq_true, if_false] at hv
+      cases h4 : info.is4in6 with
+      | true => simp [h4] at hv
+      | false =>
+        simp only [h4, Bool.false_eq_true, if_false] at hv
+        by_cases hc : info.canon = p.value
+        · exact ⟨rfl, rfl, hc⟩
+        · have : (info.canon != p.value) = true := by simpa using hc
+          simp [this] at hv
 
 /-- A byte that can occur in no accepted bracket-free pattern after the scheme: upper-case
 letters, `@`, `/` (beyond `://`), `?`, `#`, space, tab, and every byte above 127. -/
@@ -422,7 +856,11 @@ example : (Lex.parse (Spec.b "https://example.com:8080")).map (·.port) = some 8
 
 #print axioms C13_accept
 #print axioms C13_accept_self
+#print axioms C13_accept_idna
+#print axioms C13_accept_ipv4
+#print axioms C13_accept_ipv6
 #print axioms C13_accepted_form
+#print axioms C13_reject_ipv6_defects
 #print axioms C13_reject_bad_host_byte
 #print axioms C13_constants
 #print axioms C13_alphabets
